@@ -2,8 +2,8 @@
    these definitions of /repo; tools/srcfacts.py regenerates their normal-form digests on every run (coq/Gen/Src_*.v).
    Statements only. *)
 From Coq Require Import List String.
-From ME Require Import Model.SrcExpected Gen.Src_helpers Gen.Src_retry Gen.Src_poll Gen.Src_throttle Gen.Src_timeout Gen.Src_map Gen.Src_flat_map Gen.Src_cos
-  Proofs.Src_ok_helpers Proofs.Src_ok_retry Proofs.Src_ok_poll Proofs.Src_ok_throttle Proofs.Src_ok_timeout Proofs.Src_ok_map Proofs.Src_ok_flat_map Proofs.Src_ok_cos.
+From ME Require Import Model.SrcExpected Gen.Src_helpers Gen.Src_retry Gen.Src_poll Gen.Src_throttle Gen.Src_timeout Gen.Src_map Gen.Src_flat_map Gen.Src_cos Gen.Src_sync
+  Proofs.Src_ok_helpers Proofs.Src_ok_retry Proofs.Src_ok_poll Proofs.Src_ok_throttle Proofs.Src_ok_timeout Proofs.Src_ok_map Proofs.Src_ok_flat_map Proofs.Src_ok_cos Proofs.Src_ok_sync.
 
 (* more_executors/_impl/helpers.py *)
 Theorem c11_source_helpers : Src_helpers.facts = expected_helpers.
@@ -29,6 +29,9 @@ Proof. exact src_flat_map_ok. Qed.
 (* more_executors/_impl/cancel_on_shutdown.py *)
 Theorem c11_source_cos : Src_cos.facts = expected_cos.
 Proof. exact src_cos_ok. Qed.
+(* more_executors/_impl/sync.py *)
+Theorem c11_source_sync : Src_sync.facts = expected_sync.
+Proof. exact src_sync_ok. Qed.
 
 Print Assumptions c11_source_helpers.
 Print Assumptions c11_source_retry.
@@ -38,3 +41,4 @@ Print Assumptions c11_source_timeout.
 Print Assumptions c11_source_map.
 Print Assumptions c11_source_flat_map.
 Print Assumptions c11_source_cos.
+Print Assumptions c11_source_sync.
